@@ -4,3 +4,4 @@ from . import props_alg
 SPECS = {}
 for pid, spec in props_alg.SPECS.items():
     SPECS[pid] = (spec, props_alg.GROUP)
+NOT_CLAIMED = {}
